@@ -35,6 +35,7 @@ import z3
 
 from pyvc import loader
 from pyvc.interp import _ENGINE, Env, PathEnd, SymBytes
+from contracts.common import replay_script  # noqa: E402
 from pyvc.pack import Case
 
 loader.import_repo()
@@ -291,6 +292,10 @@ def build_cases(tier="quick"):
     for c in c20.fork_cases():
         if c.unit.endswith("sevm.SEVM.run_message"):
             ref.append(Case(f"{PROP}/sevm.SEVM.run_message#test-start-state", c.case, c.harness, replay=c.replay, sources=c.sources))
+    # the configured panic codes of a test come from its own annotation and the contract's configuration only
+    for c in c20.main_cases():
+        if c.unit.endswith("__main__.run_tests"):
+            ref.append(Case(f"{PROP}/__main__.run_tests#per-test-configuration", c.case, c.harness, replay=replay_script("annotation_scope.py", "two tests of one contract, only the first carries a @custom:halmos annotation"), sources=c.sources))
     return panic_cases() + fail_flag_cases() + handler_cases() + setup_cases() + ref
 
 
